@@ -224,8 +224,10 @@ def install(g, pid, *, text, note, technique, quick, thorough, mons=None, forces
                      "understood) and proved to put one fresh evaluation-cutoff wrapper on the problem both levels share whenever a budget is given or defaulted (0 is a budget), to stop on "
                      "the evaluation count, and to report that wrapper's counter; by the wrapper-stack theorems fun is then invoked at most maxfun times and nfev is exactly the number of "
                      "invocations (Proofs/GenEquivMinimize.v).")
+    ORDER_NOTE = (" Individual's ordering (@total_ordering over __lt__ = problem.worse_than(fitnesses), __eq__ = problem.equivalent(fitnesses)) is translated on every check "
+                  "(coq/Gen/GenOrder.v) and the derived `>` proved to be 'strictly better in the problem's direction' on non-NaN doubles (Proofs/GenEquivOrder.v).")
     g["MANIFEST"] = {"text": text + (" The same for the run() translated from the current sources (code_moment theorems)." if "driver" in front_ends and pid != "C11" else ""),
-                     "note": note + " " + COMMON_NOTE + (DRIVER_NOTE if "driver" in front_ends else "") + (STOPS_NOTE if "stops" in front_ends else "") + (ACCESSORS_NOTE if "accessors" in front_ends else "") + (POPOPS_NOTE if "popops" in front_ends else "") + (OPS_NOTE if "ops" in front_ends else "") + (FILTERS_NOTE if ("levellimit" in front_ends or "demelimit" in front_ends) else "") + (CTOR_NOTE if "ctor" in front_ends else "") + (MINIMIZE_NOTE if "minimize" in front_ends else ""),
+                     "note": note + " " + COMMON_NOTE + (DRIVER_NOTE if "driver" in front_ends else "") + (STOPS_NOTE if "stops" in front_ends else "") + (ACCESSORS_NOTE if "accessors" in front_ends else "") + (POPOPS_NOTE if "popops" in front_ends else "") + (OPS_NOTE if "ops" in front_ends else "") + (FILTERS_NOTE if ("levellimit" in front_ends or "demelimit" in front_ends) else "") + (CTOR_NOTE if "ctor" in front_ends else "") + (MINIMIZE_NOTE if "minimize" in front_ends else "") + (ORDER_NOTE if "order" in front_ends else ""),
                      "technique": technique + ("; python-ast -> Gallina translation of tree.py and the deme run_metaepoch loops with a machine-checked simulation by the small-step machine" if "driver" in front_ends and pid != "C11" else
                                                "; static population-freshness analysis in the driver translator" if pid == "C11" else "")}
 
